@@ -234,7 +234,10 @@ def e9(ctx: Ctx):
         o = I.construct(cls, args, {}, 0, cls)
         rm = py.resolve_method(cls, "basic09_text")
         ctx.need(rm is not None, cls, "basic09_text not found")
-        return _render(I.call_function(rm[1], [o, Const(0)], self_obj=o, owner=rm[0].name))
+        got_ = _render(I.call_function(rm[1], [o, Const(0)], self_obj=o, owner=rm[0].name))
+        # a hole that is not one of the two probe operands: the text passes through code the interpreter does not model
+        ctx.need(not any("{?}" in g_ for g_ in got_), cls, f"the emitted text of {cls} could not be derived completely: {sorted(got_)[:2]}")
+        return got_
 
     A, B = _mk_operand("exp", 1), _mk_operand("exp", 2)
     infix_ops = ["+", "-", "*", "/", "^", "=", "<>", "<", ">", "<=", ">=", "=<", "=>"]
